@@ -1968,6 +1968,12 @@ func (sa *Application) removeAllocationInternal(allocationKey string, releaseTyp
 					event = RunApplication
 					removeApp = false
 				}
+				// a placeholder that is replaced hands over to its replacement, which is added to the
+				// application right after this removal: the application is not done
+				if event == CompleteApplication && releaseType == si.TerminationType_PLACEHOLDER_REPLACED && alloc.HasRelease() {
+					event = EventNotNeeded
+					removeApp = false
+				}
 				eventWarning = "Application state not changed while removing a placeholder allocation"
 			}
 		}
